@@ -14,7 +14,7 @@ static const char *const EN[] = { "tick", "SDO 1017h=0", "SDO 1017h=1", "SDO 101
        "app COTmrCreate", "app COTmrDelete", "heartbeat of monitored node", "SDO 1016h:1 rewrite", "SDO 1800h:1 invalid", "SDO 1800h:1 valid" };
 
 static void app_cb(void *p) { (void)p; w_cb(CB_USER, 1, 0, 0); }
-static const char *cfg_name(int c) { static const char *const n[] = { "1kHz hb=2ms", "1kHz hb=0", "100Hz hb=20ms", "1kHz hb=2ms node 10 OPERATIONAL", "1kHz hb=0, TPDO event time 1 ms, OPERATIONAL" }; return n[c]; }
+static const char *cfg_name(int c) { static const char *const n[] = { "1kHz hb=2ms", "1kHz hb=0", "100Hz hb=20ms", "1kHz hb=2ms node 10 OPERATIONAL", "1kHz hb=0, TPDO event time 1 ms, OPERATIONAL", "1kHz hb=2ms, timer pool of 3 (exactly sized)" }; return n[c]; }
 
 static int build(int cfg)
 {
@@ -28,6 +28,9 @@ static int build(int cfg)
     /* cfg 4: the TPDO owns an event timer from the start, so that short histories reach "an event expiry outside OPERATIONAL,
      * then the producer is started, then the TPDO is re-initialised" - timer ids wandering between the two services */
     if (cfg == 4) NC.tpdo[0].event = 1;
+    /* cfg 5: a pool of three timers - producer, consumer and one more: the other timer users compete for the last one, and a re-write of the
+     * running producer must still succeed (it needs no additional timer) */
+    if (cfg == 5) NC.tmr_n = 3;
     NC.operational = (cfg == 3 || cfg == 4);
     nc_build();
     (void)CONodeGetErr(&Node);
@@ -38,9 +41,13 @@ static int build(int cfg)
 }
 static const char *ev_name(int e) { return EN[e]; }
 
+static int free_before;     /* free timer actions before the write */
+static int tmr_free(void) { int n = 0; for (CO_TMR_ACTION *a = Node.Tmr.Acts; a && n <= NC_TMR; a = a->Next) n++; return n; }
 static void hb_write_result(uint32_t abort_or_err, uint16_t v)
 {
-    if (abort_or_err != 0) { mc_fail("hb-write-refused", "write of %u to 1017h refused (%08X)", v, abort_or_err); return; }
+    /* starting a stopped producer needs a timer: with none free the write may be refused and changes nothing; every other write must succeed */
+    if (abort_or_err != 0 && M.period == 0 && v != 0 && free_before == 0) return;
+    if (abort_or_err != 0) { mc_fail("hb-write-refused", "write of %u to 1017h refused (%08X) with %d free timer(s), old period %u", v, abort_or_err, free_before, M.period); return; }
     M.period = v; M.rem = v;
 }
 
@@ -53,9 +60,11 @@ static int step(int e)
     case E_SDO_HB0: case E_SDO_HB1: case E_SDO_HB2: case E_SDO_HB3: {
         uint16_t v = (uint16_t)(e - E_SDO_HB0);
         if (M.mode == M_STOP) return MC_SKIP;
+        free_before = tmr_free();
         r = nc_sdo_write(0x1017, 0, v * TPM, 2); hb_write_result(r, v); break; }
     case E_API_HB0: case E_API_HB2: case E_API_HB3: {
         uint16_t v = (uint16_t)(e == E_API_HB0 ? 0 : e == E_API_HB2 ? 2 : 3);
+        free_before = tmr_free();
         CO_ERR err = CODictWrWord(&Node.Dict, CO_DEV(0x1017, 0), (uint16_t)(v * TPM)); hb_write_result(err == CO_ERR_NONE ? 0 : (uint32_t)err, v); break; }
     case E_NMT_START: M.mode = M_OP; nc_nmt(1, NID); break;
     case E_NMT_STOP:  M.mode = M_STOP; nc_nmt(2, 0); break;
@@ -93,5 +102,5 @@ static int step(int e)
     return MC_OK;
 }
 
-static const mc_harness H = { "C10", "c10", 5, cfg_name, build, ev_name, step, 6, 8 };
+static const mc_harness H = { "C10", "c10", 6, cfg_name, build, ev_name, step, 6, 8 };
 int main(int argc, char **argv) { return mc_main(argc, argv, &H); }
